@@ -179,6 +179,10 @@ def tag_props(b, tag):
             c = b.contracts.get(fid)
             if c is None:
                 return []
+            if m.group(2).startswith("ghost"):
+                gi = int(m.group(2)[5:])
+                if gi < len(c.ghosts) and c.ghosts[gi].get("props"):
+                    return sorted(set(c.ghosts[gi]["props"]) | set(c.implicit))
             ps = []
             for cl in c.clauses:
                 if cl.kind in ("ensures", "decreases"):
@@ -316,7 +320,10 @@ def run_property(pid, tier, seed):
         unknown = sorted(set(x for x in found if x not in known))
         if unknown:
             raise Undecided(f"unlisted trusted constructs in the unit: {unknown}")
-        wrong = sorted((k, cnt.get(k, 0), a.get("count", 1)) for k, a in known.items() if cnt.get(k, 0) != a.get("count", 1))
+        # a construct that sits inside the body of a function (`in_fn`) disappears with the body when that function is degraded
+        def expected(a):
+            return a.get("count", 1) - (1 if a.get("in_fn") in b.degraded else 0)
+        wrong = sorted((k, cnt.get(k, 0), expected(a)) for k, a in known.items() if cnt.get(k, 0) != expected(a))
         if wrong:
             raise Undecided(f"trusted constructs found a different number of times than listed in unit/assumptions.toml: {wrong}")
         used_assumptions = sorted(set(known[x]["id"] for x in found if x in known))
